@@ -221,6 +221,7 @@ fn typed_table() -> Vec<(&'static str, fn(&mut Ctx, &[u8]))> {
         rt!("BTreeMap<i32,String>", BTreeMap<i32, String>),
         rt!("BTreeMap<u64,bool>", BTreeMap<u64, bool>),
         rt!("BTreeMap<i128,u8>", BTreeMap<i128, u8>),
+        rt!("BTreeMap<u128,i8>", BTreeMap<u128, i8>),
         rt!("BTreeMap<String,F64>", BTreeMap<String, F64>),
         rt!("ByteBuf", serde_bytes::ByteBuf),
         rt!("serde_json::Value", serde_json::Value),
@@ -485,7 +486,11 @@ fn ref_eq(a: &R, ta: &[u8], b: &R, tb: &[u8]) -> bool {
     let mut y = b.clone();
     crate::mon::common::sort_members(&mut x);
     crate::mon::common::sort_members(&mut y);
-    crate::mon::common::tree_eq(&x, ta, &y, tb, &mut String::new()).is_ok()
+    // (the comparison of primitives: -0.0 == 0.0)
+    crate::mon::common::ZERO_SIGN_INSENSITIVE.with(|z| z.set(true));
+    let r = crate::mon::common::tree_eq(&x, ta, &y, tb, &mut String::new()).is_ok();
+    crate::mon::common::ZERO_SIGN_INSENSITIVE.with(|z| z.set(false));
+    r
 }
 
 /// rebuild the text of a tree with every object's members rotated/reversed
